@@ -36,3 +36,19 @@ PROPS["C04"] = dict(
     ],
     assumptions=["reference value is computed in the harness by explicit shift/or over the byte positions"],
 )
+
+PROPS["C02"] = dict(
+    title="ABI-exact decoding",
+    technique="bounded model checking of the compiled parsers (Kani/CBMC, SAT) against gABI layout tables written in the harness",
+    level_text="For each of the 17 ParseAt structures x both classes (byte order symbolic) plus FileHeader::parse_tail, the solver decides for ALL byte contents of one record, "
+               "all buffer lengths and all 2^64 start offsets that parse succeeds iff the record's ABI size is available (and the version word is 1 for verdef/verneed), consumes exactly the ABI size and returns "
+               "exactly the fields the gABI layout designates (zero/sign extension, r_info/st_info/st_other/version-index splits). This is effectively exhaustive over a record's bytes, which no finite test list is.",
+    level_note="Bound: one record per call, buffer = ABI size + 4 bytes; private link fields (vd_aux/vd_next/...) and the note header are covered behaviourally by C13/C14; trusted: the layout tables in harness/core/src/c02.rs (from the gABI/GNU docs), Kani/CBMC/CaDiCaL; usize = 64 bit.",
+    groups=[
+        K("core", ["c02::"], functions=["<T as ParseAt>::{parse_at,size_for,validate_entsize} for SectionHeader, ProgramHeader, Symbol, Rel, Rela, Dyn, CompressionHeader, SysVHashHeader, GnuHashHeader, VersionIndex, VerDef, VerDefAux, VerNeed, VerNeedAux, NoteGnuAbiTag, u32, u64",
+                                        "FileHeader::parse_tail", "Symbol::{st_bind,st_symtype,st_vis,is_undefined}", "Dyn::{d_val,d_ptr}", "VersionIndex::{index,is_hidden,is_local,is_global}"],
+          bounds="record bytes all symbolic; buffer capacity size+4 with symbolic length; start offset any usize; class fixed per harness; byte order symbolic; unwind 9",
+          timeout_s=600),
+    ],
+    assumptions=["layout oracle: (field, offset, width, signedness) tables in harness/core/src/c02.rs written from the gABI and GNU symbol-versioning documents"],
+)
